@@ -2699,6 +2699,10 @@ class sptensor:
                     i[n] = np.array(keyCopy[n], ndmin=2)
                 addsubs[:, n] = ttb.khatrirao(*i).transpose()[:]
 
+            # An index list may name a position more than once: one entry each
+            _, first = np.unique(addsubs, axis=0, return_index=True)
+            addsubs = addsubs[np.sort(first)]
+
             if self.subs.size > 0:
                 # Replace existing values
                 loc = tt_intersect_rows(self.subs, addsubs)
